@@ -3,6 +3,7 @@ package netx
 import (
 	"bytes"
 	"context"
+	"encoding/binary"
 	"fmt"
 	"math/rand"
 	"os"
@@ -117,6 +118,7 @@ func runC14Sequence(ctx context.Context, run *common.Run, st *c14Stats, idx int,
 	}
 	defer s.Stop(20 * time.Second)
 	s.Peer.Record = true
+	s.Peer.WriteTimeout = 2 * time.Minute // multi-megabyte frames to a node that is slow under load
 	if err := s.Verify(15 * time.Second); err != nil {
 		run.Inconclusive("verify: " + err.Error())
 		return
@@ -281,6 +283,21 @@ func runC14Sequence(ctx context.Context, run *common.Run, st *c14Stats, idx int,
 		}
 	}
 	run.Eval(1)
+	if atomic.LoadInt32(&s.Peer.WriteTimedOut) != 0 {
+		// our own write gave up in the middle of a frame: the stream is cut there by the harness.
+		// A node parked on a lock explains it (and is a violation); otherwise the node was just slow.
+		if st := s.ReaderState(); st == "blocked-on-lock" {
+			time.Sleep(2 * time.Second)
+			if s.ReaderState() == "blocked-on-lock" {
+				run.Violate(common.Violation{Clause: "ping-after-sequence-is-answered", Signature: "node-stopped-reading/blocked-on-lock",
+					Detail:  fmt.Sprintf("the node stopped reading (its read side is parked on a lock) during sequence %v", desc),
+					Witness: map[string]interface{}{"kind": "p2p-sequence", "with_tx_manager": withTx, "messages": desc, "case": idx, "seed": run.Seed}})
+				return
+			}
+		}
+		run.Inconclusive("peer-write-timed-out-while-the-node-was-slow")
+		return
+	}
 	nonce := rng.Uint64()
 	got, closed := s.PingPong(nonce, 30*time.Second)
 	w := map[string]interface{}{"kind": "p2p-sequence", "with_tx_manager": withTx, "messages": desc, "case": idx, "seed": run.Seed}
@@ -305,7 +322,61 @@ func runC14Sequence(ctx context.Context, run *common.Run, st *c14Stats, idx int,
 			return
 		}
 		if !closed2 {
+			// No pong yet. Whether that is a swallowed ping or a node that is merely slow (dozens of
+			// multi-megabyte messages under the race detector on a loaded machine) is decided from
+			// what the node's read side is doing, not from the clock: parked in a network read or on
+			// a lock although everything was sent = it will never answer; anything else = still
+			// working, keep waiting (bounded) for the pong.
+			hasPong := func() bool {
+				for _, m := range s.Peer.Log() {
+					if m.Cmd == "pong" && len(m.Payload) == 8 && (binary.LittleEndian.Uint64(m.Payload) == nonce || binary.LittleEndian.Uint64(m.Payload) == nonce+1) {
+						return true
+					}
+				}
+				return false
+			}
+			st1, idle := "", 0
+			for i := 0; i < 90 && idle < 6; i++ {
+				if hasPong() {
+					atomic.AddInt64(&st.pongs, 1)
+					run.Count("pong-late-node-was-busy", 1)
+					return
+				}
+				if s.Peer.IsClosed() {
+					break
+				}
+				// six consecutive looks, 5 s apart, at a read side that is not working (and an idle
+				// write side) with no pong arriving in between: it will never answer
+				if st := s.ReaderState(); st != "busy" && (st == st1 || idle == 0) {
+					st1 = st
+					idle++
+				} else {
+					st1, idle = st, 0
+				}
+				s.Peer.WaitFor(0, 5*time.Second, func(m Msg) bool {
+					return m.Cmd == "pong" && len(m.Payload) == 8 && (binary.LittleEndian.Uint64(m.Payload) == nonce || binary.LittleEndian.Uint64(m.Payload) == nonce+1)
+				})
+			}
+			if hasPong() {
+				atomic.AddInt64(&st.pongs, 1)
+				run.Count("pong-late-node-was-busy", 1)
+				return
+			}
+			if idle < 6 {
+				run.Inconclusive("no-pong-while-the-node-was-still-busy")
+				return
+			}
 			w["bytes_hex_len"] = len(s.Peer.Sent)
+			w["node_read_side"] = st1
+			w["node_goroutines"] = s.NodeGoroutines()
+			var tail []string
+			lg := s.Peer.Log()
+			for i := len(lg) - 8; i < len(lg); i++ {
+				if i >= 0 {
+					tail = append(tail, fmt.Sprintf("%s[%d]", lg[i].Cmd, len(lg[i].Payload)))
+				}
+			}
+			w["received_from_node_tail"] = tail
 			run.Violate(common.Violation{Clause: "ping-after-sequence-is-answered", Signature: "no-pong-connection-up/last=" + lastKind(shape),
 				Detail: fmt.Sprintf("connection still up but no pong to two pings after sequence %v", desc), Witness: w})
 			return
@@ -351,6 +422,9 @@ func RunC14(tier string, seed int64) int {
 	n, maxPayload, par := 400, 300000, 32
 	if tier == "thorough" {
 		n, maxPayload, par = 20000, 4<<20, 48
+	}
+	if v := os.Getenv("VERIF_N"); v != "" { // debugging aid: number of sequences
+		fmt.Sscan(v, &n)
 	}
 	st := &c14Stats{}
 	only := -1
